@@ -36,6 +36,9 @@ def run(ctx):
     r185(ctx)
     r186(ctx)
     r187(ctx)
+    from ..statrules import shared_class_state
+    shared_class_state(ctx, 'R18.11', sorted(c for c, ci in ctx.prog.classes.items() if ci.module.name == 'parameters'),
+                       'children added to one parameter map (or options of one selection parameter) appear in every other one')
     ctx.rule('R18.8', 'a rejected set_value / add leaves the parameter (map) unchanged (refuse-before-effect)')
     classes = [c for c in prog.subclasses(ROOT, strict=False) if 'set_value' in prog.classes[c].methods]
     rbe = RBE(prog)
